@@ -271,7 +271,7 @@ class SubInterp:
             a = self.eval(e.args[0], env)
             if is_sub(a):
                 return ("BUILD", (("*", 0),), apps(a))
-            return a if a[0] in ("BAD", "UNKNOWN") else ("OTHER",)
+            return a if a[0] in ("BAD", "UNKNOWN", "PERM") else ("OTHER",)
         if d == "filter" and len(e.args) == 2:
             a = self.eval(e.args[1], env)
             if is_sub(a):
